@@ -504,4 +504,120 @@ theorem monitor_accepts_model_loop (sc : Scenario) (hs : sc.sess = false) (env :
   · simp only [hr, if_true]; rfl
   · simp only [hr, if_false, deadline_accepts]; rfl
 
+/-! ## Stream `sessions` -/
+
+/-- The instant at which keep-alive has to have ended, computed by the monitor on the model's
+schedule, is the instant at which the model's goroutine returns (`endAt`, or the end of a transport
+write that blocks the session's Close). -/
+theorem due_model (I : Nat) (t0 : Int) (scs : List Script) (tc : Nat) (wblk : Option Nat) :
+    (dueOf tc (simFrom I 0 0 (scs.take (pingsBefore I tc scs))) ((obsOf I (scs.take (pingsBefore I tc scs))).map code)
+        (specCloseTick (threshold t0) ((obsOf I (scs.take (pingsBefore I tc scs))).map code))
+        (run I t0 (scs.take (pingsBefore I tc scs))).tick wblk).1 =
+      max (endAt I t0 scs tc)
+        (if (run I t0 (scs.take (pingsBefore I tc scs))).status = .closed then wblk.getD 0 else 0) := by
+  generalize hpre : scs.take (pingsBefore I tc scs) = pre
+  have hstop : stopOf (simFrom I 0 0 pre) (run I t0 pre).tick = (run I t0 pre).free := by
+    rw [(startOf_sim I pre _ (run_tick_le_length I t0 pre)).2, (run_free I t0 pre).1]
+  rw [specCloseTick_model]
+  obtain ⟨_, hst⟩ := inv_run I t0 pre
+  cases hs : (run I t0 pre).status with
+  | running =>
+    rw [hs] at hst
+    have hany : ((obsOf I pre).map code).any (· == 1) = false := by
+      rw [List.any_eq_false]
+      intro a ha
+      obtain ⟨o, ho, rfl⟩ := List.mem_map.1 ha
+      rw [code_mnf, hst.2.2.2.1 o ho]; simp
+    have he := endAt_running I t0 scs tc (by rw [hpre]; exact hs)
+    rw [hpre] at he
+    simp [dueOf, hany, hstop, he]
+  | closed =>
+    have he := endAt_ended I t0 scs tc (by rw [hpre, hs]; simp)
+    rw [hpre] at he
+    simp [dueOf, hstop, he]
+  | stopped =>
+    rw [hs] at hst
+    obtain ⟨d, h1, h2, h3, _⟩ := hst
+    have hany : ((obsOf I pre).map code).any (· == 1) = true := by
+      rw [List.any_eq_true]
+      refine ⟨1, ?_, rfl⟩
+      apply List.mem_map.2
+      exact ⟨.mnf d, List.mem_of_getElem? h3, rfl⟩
+    have he := endAt_ended I t0 scs tc (by rw [hpre, hs]; simp)
+    rw [hpre] at he
+    simp [dueOf, hany, hstop, he]
+
+theorem liveClause_model (due : Nat) (why : Why) (raw : String) (t : Nat) :
+    liveClause due why raw (if t < due then Live.yes else Live.no) t = none := by
+  by_cases h : t < due
+  · simp only [h, if_true, liveClause]
+    have : ¬ t ≥ due := by omega
+    simp [this]
+  · simp [h, liveClause]
+
+/-- **monitor_accepts_model (stream `sessions`, records `kss`).** On the model's observation of ANY
+session scenario whose observed pings honour their deadline unless their write was blocked (`longClause`
+is a check of the given outcome pattern, not of the loop), and whatever the transport did with the
+connection as long as it closed it when keep-alive closed the session (`shutClause`: the closing of the
+connection is not the loop's and is copied from the implementation's observation), the monitor raises
+no clause. -/
+theorem monitor_accepts_model_sess (sc : Scenario) (hs : sc.sess = true) (env : Option SessObs)
+    (hlong : longClause sc.I sc.scripts = none)
+    (hshut : shutClause (env.bind (·.shut)) (env.bind (·.wblk)) (modelObs sc env).closes = none) :
+    monitor sc (modelObs sc env) = none := by
+  obtain ⟨hp, hcl, hst⟩ := runCancel_fields sc.I sc.t0 sc.scripts sc.tc
+  have hlt := cancel_stops_pings sc.I sc.t0 sc.scripts sc.tc
+  have hsched : specSched sc.I sc.tc 0 0 sc.scripts = simFrom sc.I 0 0 (sc.scripts.take (pingsBefore sc.I sc.tc sc.scripts)) :=
+    specSched_eq_sim sc.I sc.tc sc.scripts 0 0
+  have hdue := due_model sc.I sc.t0 sc.scripts sc.tc (env.bind (·.wblk))
+  obtain ⟨_, hwarn, hcend⟩ := nothing_after_end sc.I sc.t0 sc.scripts sc.tc
+  have hshut2 : shutClause (env.bind (·.shut)) (env.bind (·.wblk)) (runCancel sc.I sc.t0 sc.scripts sc.tc).closeAt.toList = none := hshut
+  generalize hpre : sc.scripts.take (pingsBefore sc.I sc.tc sc.scripts) = pre at hp hcl hsched hdue hst
+  have hclose := closing_accepts sc.I sc.t0 pre
+  have hticks := ticks_accepts sc.I sc.t0 pre
+  have hend := endTick_model sc.I sc.t0 pre
+  have hf30 := f30_accepts sc.I sc.tc (simFrom sc.I 0 0 pre) _ hlt
+  have hafter := afterClose_accepts sc.I sc.tc (simFrom sc.I 0 0 pre) _ hlt
+  rw [hp] at hf30 hafter
+  rw [hcl] at hshut2
+  have hbeq : ((runCancel sc.I sc.t0 sc.scripts sc.tc).status == Status.closed) =
+      decide ((run sc.I sc.t0 pre).status = Status.closed) := by
+    cases hb : (runCancel sc.I sc.t0 sc.scripts sc.tc).status == Status.closed with
+    | true => simp [hst.1 (by simpa using hb)]
+    | false =>
+      have : ¬ (run sc.I sc.t0 pre).status = Status.closed := fun h => by
+        have := hst.2 h; simp [this] at hb
+      simp [this]
+  -- the model's `e` is the monitor's `due`
+  generalize hdv : (dueOf sc.tc (simFrom sc.I 0 0 pre) (List.map code (obsOf sc.I pre))
+      (specCloseTick (threshold sc.t0) (List.map code (obsOf sc.I pre))) (run sc.I sc.t0 pre).tick
+      (env.bind (·.wblk))) = dw at hdue
+  obtain ⟨due, why⟩ := dw
+  simp only at hdue
+  have hlogged : loggedClause (warnsCancel sc.I sc.t0 sc.scripts sc.tc) (run sc.I sc.t0 pre).closeAt.toList due why = none := by
+    simp only [loggedClause]
+    have : (warnsCancel sc.I sc.t0 sc.scripts sc.tc ++ (run sc.I sc.t0 pre).closeAt.toList).find? (· > due) = none := by
+      rw [List.find?_eq_none]
+      intro w hw
+      have hle : w ≤ endAt sc.I sc.t0 sc.scripts sc.tc := by
+        rcases List.mem_append.1 hw with h | h
+        · exact hwarn w h
+        · rw [← hcl] at h
+          have := hcend w (by simpa using h)
+          omega
+      have : endAt sc.I sc.t0 sc.scripts sc.tc ≤ due := by rw [hdue]; exact Nat.le_max_left _ _
+      simp; omega
+    rw [this]
+  simp only [monitor, hs, modelObs, hsched, sim_outcomes, specT_eq, hend, hp, hcl, hclose, hticks, hf30, hafter,
+    hlong, if_true, hbeq, hdv, decide_eq_true_eq, ← hdue, sessClause, hlogged, hshut2, livesClause]
+  cases sc.at1 with
+  | none =>
+    by_cases hr : sc.real = true ∨ (run sc.I sc.t0 pre).pings.isEmpty = true
+    · simp only [hr, if_true, liveClause_model]; simp
+    · simp only [hr, if_false, deadline_accepts, liveClause_model]; simp
+  | some t1 =>
+    by_cases hr : sc.real = true ∨ (run sc.I sc.t0 pre).pings.isEmpty = true
+    · simp only [hr, if_true, liveClause_model]; simp
+    · simp only [hr, if_false, deadline_accepts, liveClause_model]; simp
+
 end KeepAlive
